@@ -25,6 +25,14 @@ THEOREMS = [
     "C24_retention_bound",
     "C24_no_eviction_elsewhere",
     "C24_completed_stamp",
+    "C24_rows_are_last_writes",
+    "C24_write_persists",
+    "C24_table_from_history",
+    "C24_terminal_queue_exact",
+    "C24_evicted_stay_older",
+    "C24_bounded_within_unbounded",
+    "C24_memory_store_shape",
+    "C24_constructor",
 ]
 LEAN_TARGETS = ["WfProps.C24"]
 EXPLANATION = (
@@ -40,7 +48,16 @@ EXPLANATION = (
     "terminal later than every evicted one ('most recently completed' = order of the write at which the handler last turned "
     "terminal or was re-inserted terminal; later terminal writes of the same handler do not move it -- C24_completed_stamp "
     "ties that ghost stamp to the history); nothing else ever evicts; the number of terminal handlers never exceeds "
-    "max_completed. Tie: one random op stream per case is "
+    "max_completed. Over whole histories (induction over the operations): every row of any store is the latest write of "
+    "its id and has been in the table ever since; a write stays until the next write of its id or a delete it matches "
+    "(any handler in SQLite / unbounded memory, a non-terminal one in a bounded store), so the table -- hence every query "
+    "answer -- is a function of the history; `_terminal_queue` of every reachable store is exactly the terminal ids, once "
+    "each, in completion order (the two `continue` branches of the eviction loop are dead); whatever was evicted is older "
+    "than everything retained at any later time; without status updates a bounded store holds the unbounded store's table "
+    "minus some terminal rows; the constructor refuses exactly the negative bounds and the default store's bound is the "
+    "source's (1000). The statement shapes of MemoryWorkflowStore.__init__/query/update/delete/_evict_oldest_completed are "
+    "regenerated and pinned (C24_memory_store_shape). Tie: one random op stream per case (incl. `_terminal_queue` dumps, "
+    "store-order listings, store re-opens, bulk upserts on the default-bound store, a refused negative bound) is "
     "run against the model driver, the real MemoryWorkflowStore (bounded and unbounded) and the real SqliteWorkflowStore "
     "(both single_connection modes, temp files) and compared after every op. Search: query/delete results against a "
     "brute-force filter over a shadow dict, memory-vs-SQLite agreement, retention against completion stamps."
@@ -49,8 +66,11 @@ LEVEL_TEXT = "proof (all op sequences, all filter combinations) + regenerated fi
 ASSUMPTIONS = [
     "strings are abstract tokens: only equality matters (SQLite TEXT columns with BINARY collation, Python ==); the harness "
     "uses one injective token->string table with case variants, trailing blanks, '', digits, quotes, '%', newline, non-ASCII",
-    "table order = insertion order (Python dict order; SQLite rowid order for `run_id IN (?)`), relevant only for which of "
-    "several handlers sharing a run_id update_handler_status picks; tied by correspondence, not by the property",
+    "table order = insertion order (Python dict order; SQLite rowid order for an unfiltered SELECT and for `run_id IN (?)`), "
+    "relevant only for which of several handlers sharing a run_id update_handler_status picks; tied by correspondence (store-order "
+    "listings `L` after upserts, deletes, evictions and re-inserts, on all four stores), not by the property",
+    "`_terminal_queue` is read off the real MemoryWorkflowStore object (op `T`) and compared with the model's queue; it is not "
+    "part of the monitors (not observable through the store API)",
     "a filter-less delete is outside the property: memory removes everything, SQLite removes nothing (modelled, compared "
     "against both stores, documented in C24_filterless_delete_differs)",
     "the in-memory store keeps the caller's PersistentHandler object (no copy); the harness never mutates a handler after "
@@ -68,7 +88,7 @@ TRUSTED_EXTRA = [
 BASE = datetime(2024, 1, 1, tzinfo=timezone.utc)
 FIELDS = ["handler_id_in", "run_id_in", "workflow_name_in", "status_in"]
 ROWKEYS = ["id", "wf", "st", "run", "err", "res", "t0", "t1", "t2", "idle"]
-MALFORMED = ["", "X 1 2", "U 1 2", "U a 1 1 _ _ _ _ _ _ _", "U 1 1 1 _ _ _ _ _ _", "Q _ _ _ _", "Q _ _ _ _ 2", "Q 1,,2 _ _ _ _",
+MALFORMED = ["T 1", "L x", "R 0", "B 1 2 3", "B a 1 1 1", "init mem -", "init mem d d", "", "X 1 2", "U 1 2", "U a 1 1 _ _ _ _ _ _ _", "U 1 1 1 _ _ _ _ _ _", "Q _ _ _ _", "Q _ _ _ _ 2", "Q 1,,2 _ _ _ _",
              "D _ _ _ _ x", "S 1 _ _ _ q 3", "S 1 _ _ _ u", "init", "init mem x", "init pg", "U 1 1 1 _ _ _ _ _ _ _ _", " Q _ _ _ _ _"]
 
 
@@ -85,12 +105,15 @@ def load_impl() -> dict[str, Any]:
     from llama_agents.server._store.sqlite.sqlite_workflow_store import SqliteWorkflowStore
     from workflows.events import StopEvent
 
+    import inspect
+
+    default_max = inspect.signature(MemoryWorkflowStore.__init__).parameters["max_completed"].default
     statuses = list(typing.get_args(A.Status))
     names = statuses + ["paused", "Completed", "a", "A", "a ", "", "1", "01", "ü", "it's", "%", "a\nb", "NULL", "None",
                         "h\"q", "_", "a,b", " a"]
     assert len(set(names)) == len(names)
     return {"A": A, "Mem": MemoryWorkflowStore, "Sql": SqliteWorkflowStore, "StopEvent": StopEvent, "statuses": statuses,
-            "names": names, "terminal": [s in A.TERMINAL_STATUSES for s in statuses]}
+            "names": names, "terminal": [s in A.TERMINAL_STATUSES for s in statuses], "default_max": default_max}
 
 
 class Names:
@@ -155,10 +178,14 @@ def op_line(op: dict) -> str:
         return f"{k} {lst(q['hid'])} {lst(q['run'])} {lst(q['wf'])} {lst(q['st'])} {'_' if q['idle'] is None else int(q['idle'])}"
     if k == "M":
         return op["line"]
+    if k in ("T", "L", "R"):
+        return k
+    if k == "B":
+        return f"B {op['start']} {op['count']} {op['wf']} {op['st']}"
     raise ValueError(k)
 
 
-def show_rows(N: Names, I: dict, rows: list) -> str:
+def show_rows(N: Names, I: dict, rows: list, sort: bool = True) -> str:
     out = []
     for h in rows:
         res = h.result
@@ -166,7 +193,8 @@ def show_rows(N: Names, I: dict, rows: list) -> str:
         st = str(I["statuses"].index(h.status)) if h.status in I["statuses"] else "?" + repr(h.status)
         out.append((N.tok(h.handler_id), ",".join([N.tok(h.handler_id), N.tok(h.workflow_name), st, N.tok(h.run_id), N.tok(h.error), r,
                                                    unts(h.started_at), unts(h.updated_at), unts(h.completed_at), unts(h.idle_since)])))
-    out.sort(key=lambda p: (0, int(p[0])) if p[0].isdigit() else (1, p[0]))
+    if sort:
+        out.sort(key=lambda p: (0, int(p[0])) if p[0].isdigit() else (1, p[0]))
     return ";".join(p[1] for p in out)
 
 
@@ -206,12 +234,28 @@ async def apply_op(I: dict, N: Names, store: Any, op: dict) -> str:
         if k == "D":
             n = await store.delete(mk_query(I, N, op["q"]))
             return f"{n}|" + show_rows(N, I, await store.query(A.HandlerQuery()))
+        if k == "T":
+            # the state the property is anchored in: MemoryWorkflowStore._terminal_queue, oldest first (SQLite has none)
+            tq = getattr(store, "_terminal_queue", None)
+            if tq is None:
+                return "queue " if not isinstance(store, I["Mem"]) else "queue ?no-_terminal_queue"
+            return "queue " + ",".join(N.tok(i) for i in tq)
+        if k == "L":
+            return "list " + show_rows(N, I, await store.query(A.HandlerQuery()), sort=False)
+        if k == "R":
+            return "ok|" + show_rows(N, I, await store.query(A.HandlerQuery()))
+        if k == "B":
+            for i in range(op["start"], op["start"] + op["count"]):
+                await store.update(mk_handler(I, N, {"id": i, "wf": op["wf"], "st": op["st"], "run": None, "err": None, "res": None,
+                                                     "t0": None, "t1": None, "t2": None, "idle": None}))
+            rows = await store.query(A.HandlerQuery())
+            return f"n {len(rows)} {sum(1 for h in rows if h.status in A.TERMINAL_STATUSES)}"
     except Exception as e:  # the stores never raise on in-domain input
         return f"raise:{type(e).__name__}:{str(e)[:80]}"
     raise ValueError(k)
 
 
-STORE_KINDS = ["mem", "memN", "sql0", "sql1"]
+STORE_KINDS = ["mem", "memN", "sql0", "sql1"]   # "memD" (the constructor's default bound) only where a case asks for it
 
 
 class Runner:
@@ -223,6 +267,8 @@ class Runner:
         shm = "/dev/shm"  # tmpfs: the stores fsync on every commit
         self.tmp = tempfile.mkdtemp(prefix="c24_", dir=shm if os.path.isdir(shm) and os.access(shm, os.W_OK) else None)
         self.n = 0
+        self.path = ""
+        self.init_out: dict[str, str] = {}
         self.loop = asyncio.new_event_loop()
         self.saved = I["A"].datetime
         I["A"].datetime = Clock
@@ -238,16 +284,35 @@ class Runner:
             return self.I["Mem"](max_completed=max_completed)
         if kind == "memN":
             return self.I["Mem"](max_completed=None)
-        path = os.path.join(self.tmp, f"s{self.n}.db")
-        return self.I["Sql"](path, single_connection=(kind == "sql1"))
+        if kind == "memD":
+            return self.I["Mem"]()
+        self.path = os.path.join(self.tmp, f"s{self.n}.db")
+        return self.I["Sql"](self.path, single_connection=(kind == "sql1"))
+
+    def reopen(self, kind: str, store: Any) -> Any:
+        """a new store object on the same data: the SQLite file is opened (and migrated) again; a memory store is its own data"""
+        if not kind.startswith("sql"):
+            return store
+        conn = getattr(store, "_persistent_conn", None)
+        if conn is not None:
+            conn.close()
+        return self.I["Sql"](self.path, single_connection=(kind == "sql1"))
 
     def run(self, case: dict, kinds: list[str]) -> dict[str, list[str]]:
         async def go() -> dict[str, list[str]]:
             res: dict[str, list[str]] = {}
             for kind in kinds:
-                store = self.make(kind, case["max"])
+                try:
+                    store = self.make(kind, case["max"])
+                    self.init_out[kind] = "ok"
+                except ValueError:
+                    self.init_out[kind] = "raise:ValueError"
+                    res[kind] = []
+                    continue
                 outs = []
                 for op in case["ops"]:
+                    if op["k"] == "R":
+                        store = self.reopen(kind, store)
                     outs.append(await apply_op(self.I, self.N, store, op))
                 res[kind] = outs
                 conn = getattr(store, "_persistent_conn", None)
@@ -328,6 +393,27 @@ class Shadow:
         return rows, stamp
 
 
+def shadow_bulk(sh: Shadow, op: dict) -> None:
+    """`count` upserts of bare handlers, in place (same rule as Shadow.after_upsert)"""
+    for i in range(op["start"], op["start"] + op["count"]):
+        row = (str(i), str(op["wf"]), str(op["st"]), "_", "_", "_", "_", "_", "_", "_")
+        was = row[0] in sh.rows and sh.is_term(sh.rows[row[0]])
+        sh.rows[row[0]] = row
+        sh.t += 1
+        if sh.is_term(row):
+            if not was:
+                sh.stamp[row[0]] = sh.t
+            if sh.max is not None:
+                term = [x for x in sh.rows if sh.is_term(sh.rows[x])]
+                while len(term) > sh.max:
+                    old = min(term, key=lambda x: sh.stamp[x])
+                    term.remove(old)
+                    del sh.rows[old]
+                    del sh.stamp[old]
+        else:
+            sh.stamp.pop(row[0], None)
+
+
 def apply_status(op: dict, row: tuple, completed_flags: list[bool]) -> tuple:
     r = list(row)
     if op["st"] is not None:
@@ -374,22 +460,37 @@ def classify(sh: Shadow, want: dict[str, tuple], got: dict[str, tuple], bounded:
 
 def monitor_store(I: dict, kind: str, case: dict, outs: list[str]) -> Violation | None:
     """query/delete exactness, upsert, status update and retention of ONE real store, from its recorded answers"""
-    bounded = kind == "mem" and case["max"] is not None
-    sh = Shadow(I["terminal"], case["max"] if kind == "mem" else None)
+    bound = case["max"] if kind == "mem" else (I["default_max"] if kind == "memD" else None)
+    bounded = bound is not None
+    sh = Shadow(I["terminal"], bound)
     completed_flags = I["terminal"]  # update_handler_status stamps completed_at for the terminal statuses
     backend = "mem" if kind.startswith("mem") else "sqlite"
 
     def V(rule: str, what: str, i: int) -> Violation:
-        return Violation(f"C24/{rule}[{backend}]", f"{kind} store (max_completed={case['max'] if kind == 'mem' else None}), op #{i} `{op_line(case['ops'][i])}`: {what}",
+        return Violation(f"C24/{rule}[{backend}]", f"{kind} store (max_completed={bound}), op #{i} `{op_line(case['ops'][i])}`: {what}",
                          {"max": case["max"], "ops": case["ops"][: i + 1], "kind": kind})
 
     for i, (op, out) in enumerate(zip(case["ops"], outs)):
         k = op["k"]
-        if k == "M":
+        if k in ("M", "T"):
             continue
         if out.startswith("raise:"):
             return V(f"raises[op={k}]", out, i)
         sh.t += 1
+        if k == "L":
+            got = parse_rows(out[5:]) if out.startswith("list ") else None
+            if got is None:
+                return V("listing_malformed", out[:120], i)
+            if got != sh.rows:
+                return V("listing[" + ("extra" if any(x not in sh.rows for x in got) else "") + ("missing" if any(x not in got for x in sh.rows) else "") + "]",
+                         f"the store lists {sorted(got)}, it holds {sorted(sh.rows)}; " + diff_text(sh.rows, got), i)
+            continue
+        if k == "B":
+            shadow_bulk(sh, op)
+            want_n = f"n {len(sh.rows)} {sum(1 for r in sh.rows.values() if sh.is_term(r))}"
+            if out != want_n:
+                return V("bulk:retention[count]", f"after {op['count']} upserts the store answers `{out}` (rows, terminal rows), expected `{want_n}`", i)
+            continue
         if k == "Q":
             got = parse_rows(out[5:]) if out.startswith("rows ") else None
             want = {i_: r for i_, r in sh.rows.items() if passes(r, op["q"])}
@@ -403,6 +504,10 @@ def monitor_store(I: dict, kind: str, case: dict, outs: list[str]) -> Violation 
         got = parse_rows(dump)
         if got is None:
             return V("dump_malformed", out[:120], i)
+        if k == "R":
+            if got != sh.rows:
+                return V("reopen_changed", f"a new store object on the same data holds {sorted(got)}, expected {sorted(sh.rows)}; " + diff_text(sh.rows, got), i)
+            continue
         if k == "D":
             q = op["q"]
             if not Query_has_filter(q):
@@ -422,7 +527,7 @@ def monitor_store(I: dict, kind: str, case: dict, outs: list[str]) -> Violation 
             want, stamp = sh.after_upsert(row_of(op["h"]))
             if got != want:
                 return V("update:" + classify(sh, want, got, bounded), f"table is {sorted(got)}, expected {sorted(want)} "
-                         f"(all non-terminal + the {case['max'] if bounded else 'unbounded'} most recently completed; completion stamps {sh.stamp}); "
+                         f"(all non-terminal + the {bound if bounded else 'unbounded'} most recently completed; completion stamps {sh.stamp}); "
                          + diff_text(want, got), i)
             sh.rows, sh.stamp = want, stamp
             continue
@@ -463,12 +568,38 @@ def monitor_agreement(case: dict, outs: dict[str, list[str]]) -> Violation | Non
         if other not in outs:
             continue
         for i, (a, b) in enumerate(zip(ref, outs[other])):
+            if case["ops"][i]["k"] == "T":
+                continue  # `_terminal_queue` is the in-memory store's private state; SQLite has none
+            if case["ops"][i]["k"] == "L" and sorted(a[5:].split(";")) == sorted(b[5:].split(";")):
+                continue  # the property speaks of which handlers, not of their order (the order is tied to the model, K)
             if a != b:
                 op = case["ops"][i]
                 facts = qfacts(op["q"]) if op["k"] in ("Q", "D") else ""
                 return Violation(f"C24/backends_disagree[op={op['k']}{',' + facts if facts else ''}]",
                                  f"op #{i} `{op_line(op)}`: memory answers `{a[:200]}`, SQLite ({'single' if other == 'sql1' else 'per-call'} connection) `{b[:200]}`",
                                  {"max": case["max"], "ops": case["ops"][: i + 1], "kind": "agree"})
+    return None
+
+
+def monitor_within(I: dict, case: dict, outs: dict[str, list[str]]) -> Violation | None:
+    """histories without status updates: what a bounded store answers is part of what the unbounded store answers to the same
+    history, and whatever it lacks is terminal (C24_bounded_within_unbounded, stated on the two real stores)"""
+    if "mem" not in outs or "memN" not in outs or case["max"] is None or any(op["k"] in ("S", "B", "M") for op in case["ops"]):
+        return None
+    for i, (op, a, b) in enumerate(zip(case["ops"], outs["mem"], outs["memN"])):
+        if op["k"] not in ("Q", "L"):
+            continue
+        ra, rb = parse_rows(a[5:]), parse_rows(b[5:])
+        if ra is None or rb is None:
+            continue
+        extra = [x for x in ra if rb.get(x) != ra[x]]
+        lost = [x for x in rb if x not in ra and not I["terminal"][int(rb[x][2])]]
+        if extra or lost:
+            facts = ("extra" if extra else "") + ("nonterminal-missing" if lost else "")
+            return Violation(f"C24/bounded_vs_unbounded[op={op['k']},{facts}]",
+                             f"op #{i} `{op_line(op)}` after a history without status updates: the store with max_completed={case['max']} answers "
+                             f"{sorted(ra)}, the unbounded store {sorted(rb)}; not in the unbounded answer: {extra}; non-terminal and missing: {lost}",
+                             {"max": case["max"], "ops": case["ops"][: i + 1], "kind": "within"})
     return None
 
 
@@ -506,6 +637,7 @@ def gen_case(rng, nops: int) -> dict:
     maxc = rng.choice([0, 1, 1, 2, 2, 3, 4, None])
     run_of = {i: (rng.choice(runs) if rng.random() < 0.85 else None) for i in ids}
     p_term = rng.choice([0.3, 0.5, 0.7])
+    nostatus = rng.random() < 0.25   # histories of upserts / queries / deletes only (bounded vs unbounded comparison)
     ops: list[dict] = []
     clock = 100
 
@@ -549,14 +681,22 @@ def gen_case(rng, nops: int) -> dict:
                 h = handler(i)
                 h["st"] = rng.choice([1, 2, 3])
                 ops.append({"k": "U", "h": h})
+        elif r < 0.58 and nostatus:
+            ops.append({"k": "U", "h": handler(rng.choice(ids))})
         elif r < 0.58:
             clock += rng.randint(0, 3)
             ops.append({"k": "S", "run": rng.choice(runs) if rng.random() < 0.9 else rng.choice(pools["any"]),
                         "st": rng.choice([None, 0, 1, 2, 3, 1]), "res": rng.randint(0, 99) if rng.random() < 0.3 else None,
                         "err": rng.choice(pools["any"]) if rng.random() < 0.2 else None,
                         "idle": rng.choice(["u", "u", None, clock]), "now": clock})
-        elif r < 0.86:
+        elif r < 0.80:
             ops.append({"k": "Q", "q": gen_query(rng, pools, False)})
+        elif r < 0.83:
+            ops.append({"k": "T"})
+        elif r < 0.855:
+            ops.append({"k": "L"})
+        elif r < 0.865:
+            ops.append({"k": "R"})
         else:
             ops.append({"k": "D", "q": gen_query(rng, pools, True)})
     return {"max": maxc, "ops": ops[:nops]}
@@ -607,6 +747,18 @@ def corpus() -> list[dict]:
                  Q(hid=[6]), Q(hid=[7]), Q(hid=[8]), Q(hid=[9]), Q(hid=[10]), Q(hid=[11]), Q(run=[10, 11]), Q(hid=[1]), Q(run=[1]), Q(wf=[6]),
                  Q(hid=[13, 15, 16]), Q(run=[14, 16]), Q(hid=[19, 21]), Q(run=[18, 20]), Q("D", hid=[9]), Q("D", hid=[21, 6])]},
         {"name": "shared-run", "max": None, "ops": [H(7, 0, run=30), H(6, 0, run=30), S(30, 1, 10), ALL, Q("D", hid=[7]), H(7, 0, run=30), S(30, 2, 11), ALL]},
+        # table order: an upsert keeps its place, a re-insert after a delete / an eviction goes to the end; the queue after each
+        {"name": "order-and-queue", "max": 2,
+         "ops": [H(9, 0), H(7, 1), H(8, 0), {"k": "L"}, H(9, 2), {"k": "T"}, {"k": "L"}, H(7, 3), {"k": "T"}, H(8, 1), {"k": "T"}, {"k": "L"},
+                 H(7, 0), {"k": "L"}, Q("D", hid=[9]), H(9, 1), {"k": "L"}, {"k": "T"}, H(8, 0), {"k": "T"}, S(19, 0, 100), {"k": "T"}, {"k": "R"},
+                 {"k": "L"}, {"k": "T"}]},
+        {"name": "reopen", "max": None, "ops": [H(6, 0, idle=5), H(7, 1, res=4, err=8, t0=1, t1=2, t2=3), {"k": "R"}, Q(idle=True), S(17, 2, 60),
+                                                {"k": "R"}, {"k": "L"}, Q("D", st=[2]), {"k": "R"}, ALL]},
+        # the constructor: a negative bound is refused; the default bound is what the source says (model: Gen memMaxCompletedDefault)
+        {"name": "negative-max", "max": -1, "kinds": ["mem"], "ops": []},
+        {"name": "default-bound", "max": None, "kinds": ["memD"],
+         "ops": [{"k": "B", "start": 100, "count": 1001, "wf": 6, "st": 1}, Q(hid=[100]), Q(hid=[101, 1100]), H(5, 0),
+                 {"k": "B", "start": 2000, "count": 30, "wf": 6, "st": 2}, Q(hid=[5, 101, 130, 131, 2029]), Q(st=[0])]},
         # outside the property (no filter): memory deletes everything, SQLite nothing
         {"name": "filterless-delete", "max": 3, "outside": True, "ops": [H(7, 0), H(8, 1), Q("D"), ALL]},
     ]
@@ -625,13 +777,16 @@ def run_case(R: Runner, I: dict, case: dict, kinds: list[str]) -> tuple[dict[str
     v = monitor_agreement(case, outs)
     if v is not None:
         vs.append(v)
+    v = monitor_within(I, case, outs)
+    if v is not None:
+        vs.append(v)
     return outs, vs
 
 
 def shrink(R: Runner, I: dict, v: Violation, budget: int = 150) -> Violation:
     """greedy one-op-at-a-time removal keeping the same signature"""
     case = dict(v.replay)
-    kinds = ["memN", "sql0", "sql1"] if case.get("kind") == "agree" else [case["kind"]]
+    kinds = ["memN", "sql0", "sql1"] if case.get("kind") == "agree" else (["mem", "memN"] if case.get("kind") == "within" else [case["kind"]])
     ops = list(case["ops"])
     best = v
     i = len(ops) - 2
@@ -652,6 +807,8 @@ def shrink(R: Runner, I: dict, v: Violation, budget: int = 150) -> Violation:
 def model_lines(case: dict, backend: str) -> list[str]:
     if backend == "mem":
         init = f"init mem {o(case['max'])}"
+    elif backend == "memD":
+        init = "init mem d"
     elif backend == "memN":
         init = "init mem _"
     else:
@@ -664,7 +821,9 @@ def run(env: Env) -> Outcome:
     out.rule = ("op streams over a small pool of handler/run/workflow tokens (overlapping pools, odd strings), max_completed in "
                 "{0,1,2,3,4,None}: upserts (running/terminal, repeated terminal upserts), update_handler_status (unknown and shared run "
                 "ids, status/result/error/idle), queries and deletes with every filter combination incl. empty lists, unknown values and "
-                "is_idle; non-trivial = a stream with an eviction, a delete or a non-empty query result; distinct by the op lines")
+                "is_idle, `_terminal_queue` dumps (T), store-order listings (L), re-opens of the store on the same data (R); a quarter of the "
+                "streams has no status updates (bounded vs unbounded comparison); corpus: bulk upserts (B) on the default-bound store, a "
+                "negative bound; non-trivial = a stream with an eviction, a delete or a non-empty query result; distinct by the op lines")
     I = load_impl()
     R = Runner(I)
     try:
@@ -672,7 +831,7 @@ def run(env: Env) -> Outcome:
         if env.replay is not None:
             rc = env.replay["payload"].get("case")
             if isinstance(rc, dict) and "ops" in rc:
-                cases.append({"name": "replay", "max": rc.get("max"), "ops": rc["ops"]})
+                cases.append({"name": "replay", "max": rc.get("max"), "ops": rc["ops"], **({"kinds": ["memD"]} if rc.get("kind") == "memD" else {})})
         cases += corpus()
         n = env.budget(45, 1200)
         for _ in range(n):
@@ -687,23 +846,30 @@ def run(env: Env) -> Outcome:
             # the per-call-connection SQLite store is slow (two connections per op): in the quick tier it runs the
             # corpus and every third generated stream; the single-connection store runs everything
             kinds_here = STORE_KINDS if (env.tier != "quick" or "name" in case or ci % 3 == 0) else [k for k in STORE_KINDS if k != "sql0"]
+            if "kinds" in case:
+                kinds_here = case["kinds"]
             outs, vs = run_case(R, I, case, kinds_here)
             for v in vs:
                 if not any(f.signature == v.signature for f in found) and len(found) < 12:
                     found.append(shrink(R, I, v) if len(found) < 2 else v)
-            for backend, kinds in (("mem", ["mem"]), ("memN", ["memN"]), ("sql", ["sql0", "sql1"])):
+            for backend, kinds in (("mem", ["mem"]), ("memN", ["memN"]), ("memD", ["memD"]), ("sql", ["sql0", "sql1"])):
                 for kind in kinds:
                     if kind not in outs:
                         continue
                     ml = model_lines(case, backend)
                     lines += ml
-                    impl += ["ok"] + outs[kind]
+                    impl += [R.init_out[kind]] + outs[kind]
                     owner += [(ci, kind)] * len(ml)
             # bookkeeping
             out.evaluations += len(case["ops"]) * len(kinds_here)
-            out.count("max_completed:" + o(case["max"]))
+            out.count("max_completed:" + ("default" if kinds_here == ["memD"] else o(case["max"])))
             evicted = False
-            for op, res in zip(case["ops"], outs["mem"]):
+            first = outs[kinds_here[0]]
+            if any(op["k"] == "S" for op in case["ops"]):
+                out.count("stream:with-status-updates")
+            else:
+                out.count("stream:status-free")
+            for op, res in zip(case["ops"], first):
                 out.count("op:" + op["k"])
                 if op["k"] in ("Q", "D"):
                     out.count(f"{op['k']}:nfilters={sum(1 for k in ('hid', 'run', 'wf', 'st', 'idle') if op['q'][k] is not None)}")
@@ -713,7 +879,11 @@ def run(env: Env) -> Outcome:
                     out.count("Q:non-empty-result")
                 if op["k"] == "D" and not res.startswith("0|"):
                     out.count("D:removed-some")
-            for a, b in zip(outs["mem"], outs["memN"]):
+                if op["k"] == "T" and res != "queue ":
+                    out.count(f"T:queue-length={min(len(res[6:].split(',')), 5)}{'+' if len(res[6:].split(',')) > 5 else ''}")
+                if op["k"] == "B":
+                    out.count("B:upserts", op["count"])
+            for a, b in zip(outs.get("mem", []), outs.get("memN", [])):
                 if a != b:
                     evicted = True
                     break
@@ -722,7 +892,7 @@ def run(env: Env) -> Outcome:
             if evicted or any(op["k"] == "D" for op in case["ops"]):
                 out.nontrivial(tuple(op_line(op) for op in case["ops"]) + (case["max"],))
             if ci < 3:
-                out.sample({"max_completed": case["max"], "ops": [op_line(op) for op in case["ops"]][:12], "memory": outs["mem"][:12]})
+                out.sample({"max_completed": case["max"], "ops": [op_line(op) for op in case["ops"]][:12], "memory": first[:12]})
         out.violations += found
 
         try:
